@@ -42,7 +42,7 @@ func init() {
 	})
 	register(&Rule{
 		ID:    "C20.exists",
-		Props: []string{"C20", "C09"},
+		Props: []string{"C20", "C09", "C02"},
 		Doc:   "existential member loops: in the hasIntersection* kernels a loop over the members of a multi-geometry may return early only with the positive answer; a `return false` inside such a loop makes one (e.g. empty) member hide the remaining ones",
 		Floor: 5,
 		Run:   runC20Exists,
